@@ -196,6 +196,38 @@ func c01Scenarios(tier string) []*Scenario {
 	scs = append(scs, c01M3(tier)...)
 	scs = append(scs, c01M4(tier)...)
 	scs = append(scs, c01M5(tier)...)
+	scs = append(scs, c01M6(tier)...)
+	return scs
+}
+
+// M6: the handler speaks first (responses may reach the client before the caller has even
+// returned from starting the RPC) with EVERY synchronisation operation of the library as a
+// scheduling point, under both default-scheduler families.
+func c01M6(tier string) []*Scenario {
+	var scs []*Scenario
+	bound := 1
+	if tier == "thorough" {
+		bound = 2
+	}
+	for _, cfg := range []TunCfg{{}, {Reverse: true}, {ServerNoFC: true}} {
+		for _, revOrder := range []bool{false, true} {
+			cfg, revOrder := cfg, revOrder
+			wl := StdWorkload("r1", 1, "Bidi", []int{3}, nil)
+			wl.Call.Ops = []COp{{K: "new"}, {K: "recv"}, {K: "send", Size: 3}, {K: "closesend"}, {K: "recvall"}, {K: "trailer"}}
+			wl.Handler.Ops = []HOp{{K: "send", Size: 3}, {K: "send", Size: 16385}, {K: "recvall"}, {K: "send", Size: 3}, {K: "return"}}
+			scs = append(scs, &Scenario{
+				Name: fmt.Sprintf("c01/m6/%s/handler-first/rev=%v", cfg, revOrder), Prop: "C01", Heavy: true,
+				Desc: fmt.Sprintf("Bidi RPC over a %s tunnel whose handler sends two responses before reading anything; every lock, atomic, condition and channel operation of the library is a scheduling point; default scheduler family rev=%v; <= %d deviations", cfg, revOrder, bound),
+				Opt:  Options{Level: "sync", Bound: bound, RevOrder: revOrder},
+				Run:  func(w *World) { RunWorkloads(w, cfg, []Workload{wl}) },
+				Check: func(w *World, x *Exec) []Violation {
+					vs := NoHang(x, "C01")
+					vs = append(vs, msgOracle(w, "C01", []string{"r1"})...)
+					return append(vs, completeOK(w, "C01", wl)...)
+				},
+			})
+		}
+	}
 	return scs
 }
 
